@@ -102,6 +102,11 @@ def cmpInt (a b : Int) : Int := if a < b then -1 else if a = b then 0 else 1
 def radixDigit (radix : Nat) (c : Char) : Option Nat :=
   if radix = 16 then hexDigit c else decDigit c
 
+/-- `bn::is_numeral` (bn/mod.rs): `-?[0-9]+` for radix 10, `-?[0-9a-fA-F]+` for radix 16 -/
+def isNumeral (radix : Nat) (s : Text) : Bool :=
+  let digits := if s.head? = some '-' then s.tail else s
+  !digits.isEmpty && digits.all fun c => (radixDigit radix c).isSome
+
 /-- two hex digits per byte -/
 def hexOfBytes : Bytes → Text
   | [] => []
@@ -259,18 +264,13 @@ def mapHead (f : Nat → Nat) : Bytes → Bytes
   | [] => []
   | x :: t => f x :: t
 
-/-- `u8::MAX >> (8 - range_top_bits)`: for `range_top_bits = 0` the shift amount is 8, which
-panics with overflow checks on and is masked to 0 (mask `0xFF`) without -/
-def rangeMask (m : OvfMode) (rangeTop : Nat) : Outcome Nat :=
-  if rangeTop = 0 then
-    match m with
-    | .checked => panic
-    | .wrapping => ok 255
-  else ok (255 >>> (8 - rangeTop))
+/-- `((1u16 << range_top_bits) - 1) as u8` -/
+def rangeMask (rangeTop : Nat) : Nat := (1 <<< rangeTop) - 1
 
 /-- one iteration of the loop up to `BigNumber::from_bytes(&buf)`: `rnd` are the
-`range_bits / 8 + 1` bytes written by `rng.fill_bytes(&mut buf[range_top_offs..])` -/
-def primeCandidate (m : OvfMode) (size range : Nat) (rnd : Bytes) : Outcome Int :=
+`range_bits / 8 + 1` bytes written by `rng.fill_bytes(&mut buf[range_top_offs..])`
+(no operation of the construction can overflow: the result is the same in both profiles) -/
+def primeCandidate (size range : Nat) (rnd : Bytes) : Outcome Int :=
   if ¬ (size > 1) then panic                        -- assert!(size_bits > 1)
   else if ¬ (range > 1 ∧ range ≤ size) then panic   -- assert!(range_bits > 1 && range_bits <= size_bits)
   else
@@ -280,10 +280,10 @@ def primeCandidate (m : OvfMode) (size range : Nat) (rnd : Bytes) : Outcome Int 
     if rnd.length ≠ rangeBytes then err             -- (not a library outcome: ill-formed tape)
     else
       let buf1 := orLast1 (List.replicate offs 0 ++ rnd)
-      (rangeMask m (range % 8)).bind fun mask =>
-        let buf2 := List.replicate offs 0 ++ mapHead (fun x => x &&& mask) (buf1.drop offs)
-        let buf3 := mapHead (fun x => x ||| (1 <<< (size % 8))) buf2
-        ok (ofDigits 256 buf3 : Nat)
+      let mask := rangeMask (range % 8)
+      let buf2 := List.replicate offs 0 ++ mapHead (fun x => x &&& mask) (buf1.drop offs)
+      let buf3 := mapHead (fun x => x ||| (1 <<< (size % 8))) buf2
+      ok (ofDigits 256 buf3 : Nat)
 
 /-! ## Rust — `src/bn/rust.rs` -/
 namespace Rust
@@ -328,10 +328,12 @@ def inverseLoop : Nat → Int → Int → Int → Int → Outcome (Int × Int)
       inverseLoop f newT (t - q * newT) newR (r - q * newR)
 
 def inverse (a n : Int) : Outcome Int :=
-  if n = 1 ∨ n = 0 then err
+  let m := getModulus n
+  if m = 1 ∨ m = 0 then err
   else
-    let m := getModulus n
-    (inverseLoop (a.natAbs + 1) 0 1 m a).bind fun tr =>
+    -- `self.bn.mod_floor(&n)`: the operand reduced into `[0, m)`
+    let a' := Int.fmod a m
+    (inverseLoop (a'.natAbs + 1) 0 1 m a').bind fun tr =>
       if tr.2 > 1 then err
       else ok (if tr.1 < 0 then tr.1 + m else tr.1)
 
@@ -350,14 +352,17 @@ def modpow (b e m : Int) : Outcome Int :=
   else ok (Int.fmod (powMod (b % m).toNat e.toNat m.natAbs : Nat) m)
 
 def modExp (a e n : Int) : Outcome Int :=
-  if n = 1 then ok 0
+  if n = 0 then err
   else if e < 0 then
     (inverse a n).bind fun res => (setNegative e false).bind fun e' => modpow res e' (getModulus n)
+  else if n = 1 then ok 0
   else modpow a e (getModulus n)
 
-/-- `exp`: `bits() == 0` special case, `a.is_one()` special case, `to_u64` -/
+/-- `exp`: negative exponent, zero exponent, `bits() == 0` and `a.is_one()` special cases, `to_u64` -/
 def exp (a k : Int) : Outcome Int :=
-  if natBits a.natAbs = 0 then ok 0
+  if k < 0 then err
+  else if k = 0 then ok 1
+  else if natBits a.natAbs = 0 then ok 0
   else if k = 1 then ok a
   else if 0 ≤ k ∧ k < 18446744073709551616 then ok (powInt a k.toNat)
   else err
@@ -373,7 +378,8 @@ def numBits (a : Int) : Outcome Int := ok (natBits a.natAbs : Nat)
 
 /-- `is_bit_set`: `(&self.bn >> bits).is_odd()`; `>>` on `BigInt` rounds towards −∞ -/
 def isBitSet (a : Int) (n : Int) : Outcome Bool :=
-  ok (decide ((a >>> i32AsUsize n) % 2 = 1))
+  if n < 0 then ok false
+  else ok (decide ((a >>> i32AsUsize n) % 2 = 1))
 
 /-- two's-complement `x | 2^k` as `num-bigint` implements `BitOr` for `BigInt` -/
 def lorPow2 (a : Int) (k : Nat) : Int :=
@@ -381,10 +387,9 @@ def lorPow2 (a : Int) (k : Nat) : Int :=
   | Int.ofNat x => ((x ||| 2 ^ k : Nat) : Int)
   | Int.negSucc x => Int.negSucc (if x.testBit k then x - 2 ^ k else x)
 
-/-- `set_bit`: `BigInt::one() << (n as usize)`; for a negative `n` the shift amount is ≥ 2^63
-and the allocation aborts the process (observed; modelled as `panic`) -/
+/-- `set_bit`: a negative index is an error, else `self.bn |= BigInt::one() << (n as usize)` -/
 def setBit (a : Int) (n : Int) : Outcome Int :=
-  if n < 0 then panic else ok (lorPow2 a n.toNat)
+  if n < 0 then err else ok (lorPow2 a n.toNat)
 
 def lshift1 (a : Int) : Outcome Int := ok (a * 2)
 def rshift1 (a : Int) : Outcome Int := ok (a >>> 1)
@@ -402,8 +407,8 @@ def fromU32 (n : Nat) : Outcome Int := ok n
 
 /-- `BigInt::from_bytes_be(Sign::Plus, bytes)` -/
 def fromBytes (bs : Bytes) : Outcome Int := ok (ofDigits 256 bs : Nat)
-/-- `to_bytes_be().1`: magnitude, `[0]` for zero -/
-def toBytes (a : Int) : Outcome Bytes := ok (if a = 0 then [0] else toDigits 256 a.natAbs)
+/-- the empty string for zero, else `to_bytes_be().1` (the magnitude) -/
+def toBytes (a : Int) : Outcome Bytes := ok (if a = 0 then [] else toDigits 256 a.natAbs)
 
 /-- `to_str_radix` -/
 def toStrRadix (radix : Nat) (a : Int) : Text :=
@@ -445,8 +450,8 @@ def parseBigInt (radix : Nat) (s : Text) : Outcome Int :=
     (parseBigUint radix (if s.tail.head? = some '+' then s else s.tail)).map fun (v : Nat) => -(v : Int)
   else (parseBigUint radix s).map fun (v : Nat) => (v : Int)
 
-def fromDec (s : Text) : Outcome Int := parseBigInt 10 s
-def fromHex (s : Text) : Outcome Int := parseBigInt 16 s
+def fromDec (s : Text) : Outcome Int := if !isNumeral 10 s then err else parseBigInt 10 s
+def fromHex (s : Text) : Outcome Int := if !isNumeral 16 s then err else parseBigInt 16 s
 
 def ops : Ops := { numBits := numBits, isBitSet := isBitSet, setBit := setBit, modExp := modExp }
 
@@ -496,12 +501,13 @@ def bnModExp (a e n : Int) : Outcome Int :=
   else ok (powMod (a % n).toNat e.toNat n.natAbs : Nat)
 
 def modExp (a e n : Int) : Outcome Int :=
-  if e < 0 then
+  if n = 0 then err      -- `b.openssl_bn.num_bits() == 0`
+  else if e < 0 then
     (inverse a n).bind fun base => (setNegative e false).bind fun e1 => bnModExp base e1 n
   else bnModExp a e n
 
-/-- `BN_exp` ignores the sign of the exponent -/
-def exp (a k : Int) : Outcome Int := ok (powInt a k.natAbs)
+/-- a negative exponent is refused (`BN_exp` itself ignores the sign of the exponent) -/
+def exp (a k : Int) : Outcome Int := if k < 0 then err else ok (powInt a k.natAbs)
 
 def modDiv (a b n : Int) : Outcome Int := (inverse b n).bind fun b1 => modMul a b1 n
 
@@ -519,9 +525,9 @@ def setBit (a : Int) (n : Int) : Outcome Int :=
 def lshift1 (a : Int) : Outcome Int := ok (a * 2)
 /-- `BN_rshift1` shifts the magnitude -/
 def rshift1 (a : Int) : Outcome Int := ok (Int.tdiv a 2)
-/-- `BN_rshift(.., n as i32)`: error for `n ≥ 2^31`, shifts the magnitude -/
+/-- `0` for a count above `i32::MAX`, else `BN_rshift(.., n as i32)`: shifts the magnitude -/
 def rshift (a : Int) (n : Nat) : Outcome Int :=
-  if n ≥ 2147483648 then err
+  if n > 2147483647 then ok 0      -- `n > i32::MAX as u32`: every bit is shifted out
   else if natBits a.natAbs ≤ n then ok 0
   else ok (Int.tdiv a ((2 ^ n : Nat) : Int))
 
@@ -530,12 +536,12 @@ def subWord (a : Int) (w : Nat) : Outcome Int := ok (a - w)
 def mulWord (a : Int) (w : Nat) : Outcome Int := ok (a * w)
 /-- `BN_div_word`: error on zero, truncates the magnitude -/
 def divWord (a : Int) (w : Nat) : Outcome Int := if w = 0 then err else ok (Int.tdiv a w)
-/-- `from_slice(to_vec())` drops the sign, then `add_word(1)` -/
-def increment (a : Int) : Outcome Int := ok ((a.natAbs : Int) + 1)
-/-- `from_slice(to_vec())` drops the sign, then `sub_word(1)` -/
-def decrement (a : Int) : Outcome Int := ok ((a.natAbs : Int) - 1)
-/-- `from_u32(n: usize)`: `BigNum::from_u32(n as u32)` -/
-def fromU32 (n : Nat) : Outcome Int := ok ((n % 4294967296 : Nat) : Int)
+/-- `to_owned()` then `add_word(1)` -/
+def increment (a : Int) : Outcome Int := ok (a + 1)
+/-- `to_owned()` then `sub_word(1)` -/
+def decrement (a : Int) : Outcome Int := ok (a - 1)
+/-- `from_u32(n: usize)`: `BigNum::from_u32` for `n ≤ u32::MAX`, else through the decimal text -/
+def fromU32 (n : Nat) : Outcome Int := ok (n : Int)
 
 /-- `BN_bin2bn` -/
 def fromBytes (bs : Bytes) : Outcome Int := ok (ofDigits 256 bs : Nat)
@@ -571,8 +577,8 @@ def parsePrefix (radix : Nat) (s : Text) : Outcome Int :=
     (let r := digitPrefix radix s 0 0
      if r.2 = 0 then err else ok (r.1 : Int))
 
-def fromDec (s : Text) : Outcome Int := parsePrefix 10 s
-def fromHex (s : Text) : Outcome Int := parsePrefix 16 s
+def fromDec (s : Text) : Outcome Int := if !isNumeral 10 s then err else parsePrefix 10 s
+def fromHex (s : Text) : Outcome Int := if !isNumeral 16 s then err else parsePrefix 16 s
 
 def ops : Ops := { numBits := numBits, isBitSet := isBitSet, setBit := setBit, modExp := modExp }
 
